@@ -4,7 +4,7 @@
    (decided by wf_panelb); wf_nested adds as many pairwise distinct column names as variables. *)
 From Coq Require Import ZArith List Bool Permutation Sorted.
 Require Import SkV.Lib.Base SkV.C15.Model SkV.C15.Lemmas SkV.C15.Proofs SkV.C15.Long SkV.C15.Paths
-  SkV.C15.Main.
+  SkV.C15.Main SkV.C15.Layout.
 Import ListNotations.
 Open Scope Z_scope.
 
@@ -167,6 +167,34 @@ Theorem C15_shapes : forall V n c T (x : nested V),
   rect n c (nested_to_3d x) /\ (forall inst, In inst (nested_to_3d x) -> rect c T inst).
 Proof. exact @main_shapes. Qed.
 Print Assumptions C15_shapes.
+
+(* explicit layouts (at3 p d i j t = value of variable j of instance i at time t) *)
+Theorem C15_multiindex_layout : forall V n c T (p : panel V) (d : V),
+  wf_panel n c T p -> forall i t, (i < n)%nat -> (t < T)%nat ->
+  nth (i * T + t) (mi_rows T p) row0 =
+    ((Z.of_nat i, Z.of_nat t), map (fun s => nth t s d) (nth i p [])) /\
+  (forall j, (j < c)%nat -> nth j (snd (nth (i * T + t) (mi_rows T p) row0)) d = at3 p d i j t).
+Proof.
+  exact (fun V n c T p d H i t Hi Ht =>
+           conj (@mi_rows_layout V n c T p d H i t Hi Ht)
+                (@mi_rows_layout_values V n c T p d H i t Hi Ht)).
+Qed.
+Print Assumptions C15_multiindex_layout.
+
+(* the long table lists the variables in COLUMN order (sorting happens when it is pivoted back) *)
+Theorem C15_long_layout : forall V n c T (p : panel V) nms (d : V),
+  wf_panel n c T p -> length nms = c -> forall k i j t,
+  (i < n)%nat -> (j < c)%nat -> (t < T)%nat ->
+  nth (j * (n * T) + (i * T + t)) (nested_to_long (mkN k nms p)) (0, NInt 0, 0, d) =
+  (Z.of_nat i, nth j nms (NInt 0), Z.of_nat t, at3 p d i j t).
+Proof. exact @long_layout. Qed.
+Print Assumptions C15_long_layout.
+
+Theorem C15_table_layout : forall V n c T (p : panel V) (d : V),
+  wf_panel n c T p -> forall i j t, (i < n)%nat -> (j < c)%nat -> (t < T)%nat ->
+  nth (j * T + t) (nth i (a3_to_2d p) []) d = at3 p d i j t.
+Proof. exact @tab_layout. Qed.
+Print Assumptions C15_table_layout.
 
 (* the hypotheses are satisfiable: a 2 x 2 x 2 panel with unsorted names "b", "a" *)
 Example C15_nonvacuous :
